@@ -102,7 +102,7 @@ def check(tier, seed, replay=None):
                             "delivery": rnd.choice(["file", "file", "chunks"]), "chunks": [rnd.choice([4096, 8192, 8191, 100, 1])], "big": True})
         for i in range(n):
             policy = rnd.choice(["ignore", "stderr"])
-            mode = rnd.choice(["plain", "select"])
+            mode = rnd.choice(["plain", "select", "fidx"])       # fidx: the per-file ordinal restarts in every file, however the previous one ended
             data = clean_stream(rnd, rnd.choice([2, 3, 5, 8]))
             parts = partitions(rnd, data, rnd.choice([1, 2, 3, 4]), cut_inside=rnd.random() < 0.5)
             recipes.append({"kind": "files", "policy": policy, "mode": mode, "onlyObj": rnd.random() < 0.2, "parts": [hexs(p) for p in parts]})
